@@ -9,6 +9,7 @@ package mon
 // directory) is compared with the cache's own counters and the dashboard metrics.
 
 import (
+	"bytes"
 	"context"
 	"errors"
 	"fmt"
@@ -516,6 +517,19 @@ func c12crash(b core.Batch, r *core.Recorder, e c12env, keys int) {
 	r.Sample(map[string]any{"mode": "crash", "what": "victim process SIGKILLed at a seeded operation index, directory reopened by a new cache", "n": n})
 }
 
+// dyingReader delivers 500 bytes, then kills the process from inside the next Read (i.e. mid-store).
+type dyingReader struct{ n int }
+
+func (d *dyingReader) Read(p []byte) (int, error) {
+	d.n++
+	if d.n == 1 {
+		return copy(p, bytes.Repeat([]byte("x"), 500)), nil
+	}
+	syscall.Kill(os.Getpid(), syscall.SIGKILL)
+	time.Sleep(time.Second)
+	return 0, errors.New("unreachable")
+}
+
 // c12victim is the aux entry point of the process that gets killed.
 func c12victim(args []string) {
 	dir := args[0]
@@ -528,6 +542,10 @@ func c12victim(args []string) {
 	ver := 0
 	for i := 0; ; i++ {
 		if i == killAt {
+			if killAt%2 == 1 {
+				// die in the middle of a store: the source has delivered 500 bytes and never returns again
+				c.Cache(rig.Key(7), &dyingReader{}, time.Now().Add(time.Hour), rig.Obj{})
+			}
 			syscall.Kill(os.Getpid(), syscall.SIGKILL)
 			time.Sleep(time.Second)
 		}
